@@ -77,6 +77,9 @@ Proof. destruct r; cbn; intros H; try discriminate. eauto. Qed.
 Lemma ensure_ok c e u : ensure c e = Ok u -> c = true.
 Proof. destruct c; [reflexivity|discriminate]. Qed.
 
+Lemma sub_chk_ok a b : b <= a -> sub_chk a b = Ok (a - b).
+Proof. intros H. unfold sub_chk. replace (b <=? a) with true by lia. reflexivity. Qed.
+
 (* ------------------------------------------------------------------ u16 *)
 Lemma u16_val v : v <= U16MAX -> (v / 256) * 256 + v mod 256 = v.
 Proof. intros _. lia. Qed.
